@@ -323,6 +323,14 @@ fn c13_file_case<A: Subject>(fl: Fl, remove: bool, origin: Option<crate::props_f
     if last && remove == p.exists() {
       bad.push(format!("after the last drop the file {} (remove_on_drop = {})", if p.exists() { "still exists" } else { "is gone" }, remove));
     }
+    // the mapping itself: present while a value is alive, gone with the last one (also when the file is unlinked)
+    let mapped = std::fs::read_to_string("/proc/self/maps").map(|m| m.lines().filter(|l| l.contains(p.to_string_lossy().as_ref())).count()).unwrap_or(0);
+    if !last && mapped == 0 {
+      bad.push(format!("the file is no longer mapped after drop #{} of {}", i + 1, total));
+    }
+    if last && mapped != 0 {
+      bad.push(format!("after the last drop the file is still mapped ({} mapping(s) in /proc/self/maps; remove_on_drop = {})", mapped, remove));
+    }
   }
   let _ = std::fs::remove_file(&p);
   bad
